@@ -19,7 +19,7 @@ def sh(cmd, **kw):
     return subprocess.run(cmd, shell=True, capture_output=True, text=True, errors="replace", **kw)
 assert sh("git -C /repo status --short").stdout.strip() == "", "/repo not clean"
 rows = []
-ids = sorted(os.listdir(SEEDED))
+ids = sorted(d for d in os.listdir(SEEDED) if os.path.isdir(os.path.join(SEEDED, d)))
 only = sys.argv[1:]
 for sid in ids:
     if only and sid not in only:
